@@ -56,6 +56,8 @@ fn corpus() -> Vec<&'static str> {
     vec![
         "prog 1 1 0 - conde 3 1 call member 2 v0 cons i1 cons i2 cons i3 nil 1 call member 2 v0 cons i4 cons i5 cons i6 nil 1 call member 2 v0 cons i7 cons i8 cons i9 nil",
         "prog 1 1 8 - anyo conde 3 1 eq i1 v0 1 eq i2 v0 1 eq i3 v0",
+        "prog 2 2 6 - loop 2 1 conde 2 1 eq v0 i1 1 eq v0 i2 1 eq v1 i3",
+        "prog 2 2 5 - loop 2 1 conde 2 1 eq i1 v0 1 eq i2 v0 2 eq v1 v0 eq v1 i2",
         "prog 3 3 6 - call append 3 v0 v1 v2",
         "prog 2 1 5 - call member 2 i1 v0",
         "prog 1 1 0 - conde 2 1 eq v0 i1 1 eq v0 i1",
@@ -91,8 +93,13 @@ pub fn run(seed: u64, thorough: bool, out: &mut Out) {
         if r.chance(1, 4) {
             // infinite producers: loop prefixes and unbounded relation modes
             take = 3 + r.below(10);
-            let inf = match r.below(4) {
+            let inf = match r.below(5) {
                 0 => PG::Anyo(Box::new(g.goal(&mut r, 1))),
+                4 => {
+                    // loop { c1, c2, .. } with several clauses: the body is their CONJUNCTION
+                    let k = 2 + r.below(2);
+                    PG::Loop((0..k).map(|_| { let m = 1 + r.below(2); (0..m).map(|_| g.goal(&mut r, 1)).collect() }).collect())
+                }
                 1 => PG::Call("member".into(), vec![T::Num(r.range(1, 2) as isize), T::Var(r.below(g.nq + g.nh))]),
                 2 => PG::Call("append".into(), vec![T::Var(0), T::Var(r.below(g.nq + g.nh)), T::Var(r.below(g.nq + g.nh))]),
                 _ => PG::Conde(vec![vec![PG::Always, g.goal(&mut r, 1)], vec![g.goal(&mut r, 1)]]),
